@@ -1067,3 +1067,6 @@ V("d-c08-index-init-zero", "C08", "fire", UT, "    G = only_directed(P)\n    ind
 V("c08-silent-index-init-copy", "C08", "silent", UT, "    G = only_directed(P)\n    indexes = list(range(len(P)))", "    G = only_directed(P).copy()\n    indexes = list(range(len(P)))", what="explicit copy of the directed part")
 V("c13-noise-private-generator", "C13", "fire", NO, "import numpy as np\n", "import numpy as np\n_rng = np.random.default_rng()\n", rule="R6.library-noise",
   more=[(NO, "return lambda n: np.random.laplace(mean, scale, n)", "return lambda n: _rng.laplace(mean, scale, n)")], what="library noise drawn from a private generator that ANM.sample never seeds")
+V("c08-extension-any-of-neighbours", "C08", "fire", UT, "            adj_neighbors = np.all([adj_i - {y} <= adj(y, P) for y in n_i])\n", "            adj_neighbors = not any(n_i) or np.all([adj_i - {y} <= adj(y, P) for y in n_i])\n", rule="TRUTHY.node-label", what="any() over node labels: a sink whose only neighbour is node 0 skips the adjacency condition")
+V("c08-silent-extension-no-neighbours", "C08", "silent", UT, "            adj_neighbors = np.all([adj_i - {y} <= adj(y, P) for y in n_i])\n", "            adj_neighbors = len(n_i) == 0 or np.all([adj_i - {y} <= adj(y, P) for y in n_i])\n", what="explicit emptiness shortcut")
+V("c15-isin-set", "C15", "fire", UT, "                if set(path) & S == set():\n", "                if not np.isin(path, S).any():\n", rule="API.isin-set", what="np.isin with a Python set is all False: every path `avoids` S", accept_inconclusive=True)
